@@ -439,6 +439,41 @@ def search(b0: bool, b1: bool, b2: bool, b3: bool, b4: bool, b5: bool, b6: bool,
     return hx.check(inputs, (r0, r1, r2, r3, r4), (e4, e1, e2, e1, e4), "find_avps != reference tree walk (wire order, exact path, no cache leak between a path, its prefix and its siblings)")
 
 
+def search_two_messages(v0: bool, v1: bool, deep: bool, typed: bool) -> bool:
+    """
+    post: _
+    """
+    hx.begin()
+    # the same path searched on two different decoded messages, one after the other: each search sees its own message
+    # (a cache that outlives or is shared between message objects shows within this one path)
+    va, vb = (GV if v0 else 0), (GV if v1 else 0)
+    inputs = (v0, v1, deep, typed)
+
+    def build(tag, n):
+        leaves = [Avp(LEAF, vb, bytes([tag, k])) for k in range(n)]
+        if deep:
+            g = AvpGrouped(GL, va)
+            g.value = leaves
+            body = [g]
+        else:
+            body = leaves
+        code = 280 if typed else 0xabcdef
+        return Message(MessageHeader(1, 0, 0x80, code, 1, 2, 3), body).as_bytes()
+    path = ([(GL, va)] if deep else []) + [(LEAF, vb)]
+    try:
+        a = Message.from_bytes(build(0x41, 1), plain_msg=True)
+        b = Message.from_bytes(build(0x42, 2), plain_msg=True)
+        ra = [x.payload for x in a.find_avps(*path)]
+        rb = [x.payload for x in b.find_avps(*path)]
+        ra2 = [x.payload for x in a.find_avps(*path)]
+        c = Message.from_bytes(build(0x43, 0), plain_msg=True)
+        rc = [x.payload for x in c.find_avps(*path)]
+    except Exception as e:
+        return hx.fail(inputs, "raised " + type(e).__name__)
+    return hx.check(inputs, (ra, rb, ra2, rc), ([bytes([0x41, 0])], [bytes([0x42, 0]), bytes([0x42, 1])], [bytes([0x41, 0])], []),
+                    "the same path searched on several decoded messages returns each message's own AVPs")
+
+
 def search_hist(b0: bool, b1: bool, b2: bool, b3: bool, b4: bool, b5: bool, b6: bool, s2: bool, alt_first: bool, late: bool) -> bool:
     """
     post: _
@@ -504,6 +539,8 @@ def specs(tier, seed, carve):
     for i in range(2 if q else 5):
         code = rnd.choice([999, rnd.randrange(1000, 8388608), 280, 272, 8388734])
         out.append(dict(id="register_cmd/%d" % i, fn="register_cmd", params={"code": code}, timeout=60, bound="run-time registration at seeded code %d (R bit, hop-by-hop id symbolic)" % code))
+    out.append(dict(id="search_two_messages", fn="search_two_messages", params={}, timeout=120,
+                    bound="one path (1 or 2 hops, vendors symbolic) searched on three different decoded messages in turn (command with / without python class)"))
     out.append(dict(id="append_after_decode", fn="append_after_decode", params={"code": 0xf0000100 + rnd.randrange(1 << 24)}, timeout=200,
                     bound="one AVP (seeded code >= 0xf0000100, symbolic M bit and 4 payload bytes) appended with append_avp / the avps setter to a decoded DWR: command without python class, registered command decoded with plain_msg, typed class"))
     for i in range(2 if q else 6):
